@@ -3,6 +3,9 @@
 stay silent (exit 0 - neither a violation nor an inconclusive run).  The counterpart of tools/seeded.py / tools/mutants.py.
 
     tools/benign.py [<id> ...] [--props C01,C02|all] [--tier quick] [--seed N]
+    tools/benign.py import <id> <property> <patch.diff> <demo.py> <notes.txt>
+        (files a property-preserving change written by an independent sub-agent: the repository's suite passes with it,
+         and its demonstration - a program checking the property itself - passes with and without the change)
 """
 import argparse
 import json
@@ -18,7 +21,32 @@ from seeded import ALL, Scratch, sh  # noqa: E402
 BENIGN = os.path.join(HERE, 'benign')
 
 
+def do_import(argv):
+    import shutil
+    from seeded import run_demo
+    bid, prop, patch, demo, notes = argv
+    d = os.path.join(BENIGN, bid)
+    os.makedirs(d, exist_ok=True)
+    shutil.copy(patch, os.path.join(d, 'patch.diff'))
+    shutil.copy(demo, os.path.join(d, 'demo.py'))
+    meta = {'id': bid, 'property': prop, 'author': 'independent sub-agent (saw only the property text and a scratch worktree)',
+            'what': open(notes).read() if os.path.exists(notes) else '', 'ran': {}}
+    with Scratch(os.path.join(d, 'patch.diff')) as wt:
+        base = sh(os.path.join(HERE, 'tools', 'baseline_off.sh'), env=dict(os.environ, GV_REPO=wt))
+        meta['suite_passes_with_change'] = base.returncode == 0
+        rc, out = run_demo(os.path.join(d, 'demo.py'), wt)
+        meta['ran']['demo_with_change'] = {'exit': rc, 'tail': out[-300:]}
+    rc0, out0 = run_demo(os.path.join(d, 'demo.py'), '/repo')
+    meta['ran']['demo_unchanged'] = {'exit': rc0, 'tail': out0[-200:]}
+    meta['confirmed'] = bool(meta['suite_passes_with_change'] and rc == 0 and rc0 == 0)
+    json.dump(meta, open(os.path.join(d, 'meta.json'), 'w'), indent=1)
+    print(f"{bid}: suite_passes={meta['suite_passes_with_change']} demo_with_change_exit={rc} demo_unchanged_exit={rc0} confirmed={meta['confirmed']}")
+    return 0 if meta['confirmed'] else 1
+
+
 def main():
+    if len(sys.argv) > 1 and sys.argv[1] == 'import':
+        sys.exit(do_import(sys.argv[2:]))
     ap = argparse.ArgumentParser()
     ap.add_argument('ids', nargs='*')
     ap.add_argument('--props', default='all')
